@@ -252,6 +252,9 @@ func cmdCheck(args []string) int {
 		if v, ok := hm.Opts["maxviol"]; ok {
 			o.MaxViolations = int(v)
 		}
+		if v, ok := hm.Opts["wall"]; ok {
+			o.MaxWallS = float64(v)
+		}
 		hr := pool.Run(h, o)
 		fmt.Fprintf(os.Stderr, "[%s] paths=%d %v decisions=%d asserts=%d/%d unk=%d wall=%.1fs solver=%.1fs\n",
 			hm.Name, hr.Paths, hr.Outcomes, hr.Decisions, hr.AssertsOK, hr.AssertsOK+hr.AssertsUnk, hr.Unknowns, hr.Wall, hr.Solver.Seconds)
